@@ -18,10 +18,13 @@ vars == <<c>>
 
 --------------------------------------------------------------------------
 (* builders with defaults *)
-In(slot) == [slot |-> slot, gen |-> FALSE, dep |-> "none", mint |-> "none", amt |-> ZeroAmt]
-DepIn(v, a) == [slot |-> "missing", gen |-> FALSE, dep |-> v, mint |-> "none", amt |-> a]
-MintIn(v, a) == [slot |-> "missing", gen |-> FALSE, dep |-> "none", mint |-> v, amt |-> a]
-GenIn == [slot |-> "missing", gen |-> TRUE, dep |-> "none", mint |-> "none", amt |-> ZeroAmt]
+\* amt: the amount of the record the type classification selects (mint before deposit);
+\* oamt: the amount of the deposit record when the same input also carries a mint record
+In(slot) == [slot |-> slot, gen |-> FALSE, dep |-> "none", mint |-> "none", amt |-> ZeroAmt, oamt |-> ZeroAmt]
+DepIn(v, a) == [slot |-> "missing", gen |-> FALSE, dep |-> v, mint |-> "none", amt |-> a, oamt |-> ZeroAmt]
+MintIn(v, a) == [slot |-> "missing", gen |-> FALSE, dep |-> "none", mint |-> v, amt |-> a, oamt |-> ZeroAmt]
+GenIn == [slot |-> "missing", gen |-> TRUE, dep |-> "none", mint |-> "none", amt |-> ZeroAmt, oamt |-> ZeroAmt]
+Hybrid(a, b) == [slot |-> "missing", gen |-> FALSE, dep |-> "ok", mint |-> "next", amt |-> a, oamt |-> b]
 Out(t, a) ==
     IF t \in KernelOutTypes
     THEN [t |-> t, amt |-> a, nk |-> 0, kv |-> "ok", scr |-> "none", mask |-> "zero", wd |-> (t = "submit")]
@@ -233,7 +236,29 @@ InitV4 == \/ \E src \in {"mint", "depNEW", "depOTH"}, a \in BoundIns, i \in 1..L
                 os \in { <<U(1)>>, <<W1, W1>>, <<W1, AmtW(0, 1, 1)>>, <<AmtW(0, 2, 1)>>, <<AmtW(0, 1, 1)>>, <<AmtW(0, 2, 0)>> } :
                c = VCase("A", "OTH", ins, ScriptOuts(os))
 
-InitV == InitV1 \/ InitV2 \/ InitV3 \/ InitV4
+\* hybrid inputs: one decoded input carrying several records (mint + deposit with different amounts,
+\* a special record on an input that also names an existing output, genesis + record), and inputs
+\* naming indexes 255 / 256 / 512 / 1024 of the transaction whose output 0 exists
+HybAmts == {U(1), U(10), U(1000), H1}
+InitV5 == \/ \E a \in HybAmts, b \in HybAmts, asset \in {"XIN", "NEW"}, sg \in {"empty", "cust"}, pay \in {"a", "b", "ab"} :
+               LET ins == <<Hybrid(a, b)>>
+                   os == CASE pay = "a" -> <<a>> [] pay = "b" -> <<b>> [] OTHER -> <<a, b>>
+               IN c = [Case("A", asset, ins, ScriptOuts(os), SigOf(sg, World("A"), ins)) EXCEPT !.extra = "e0"]
+          \/ \E sl \in {"x1", "o1", "pl", "a1"}, a \in {U(1), U(10)}, k \in {"dep", "mint", "gen", "gendep"}, pay \in {0, 1} :
+               LET base == CASE k = "dep" -> DepIn("ok", a) [] k = "mint" -> MintIn("next", a)
+                             [] k = "gen" -> GenIn [] OTHER -> [DepIn("ok", a) EXCEPT !.gen = TRUE]
+                   ins == <<[base EXCEPT !.slot = sl]>>
+                   o == IF pay = 0 THEN a ELSE AmtAdd(a, World("B").slot[sl].amt)
+               IN c = [Case("B", "XIN", ins, ScriptOuts(<<o>>), SigOf(IF k = "mint" THEN "empty" ELSE "cust", World("B"), ins))
+                          EXCEPT !.extra = "e0"]
+          \/ \E ix \in {"x1i255", "x1i256", "x1i512", "x1i768", "x1i1024"}, shape \in {"alone", "after", "before", "two"},
+                sg \in {"G", "-"}, n \in {1, 2, 3} :
+               LET ins == CASE shape = "alone" -> <<In(ix)>> [] shape = "after" -> <<In("x1"), In(ix)>>
+                            [] shape = "before" -> <<In(ix), In("x1")>> [] OTHER -> <<In("x1"), In(ix), In("x1i512")>>
+                   maps == [i \in 1..Len(ins) |-> IF sg = "G" THEN <<Ent(0, "G")>> ELSE <<>>]
+               IN c = Case("A", "XIN", ins, ScriptOuts(<<U(n)>>), MapsSig(maps))
+
+InitV == InitV1 \/ InitV2 \/ InitV3 \/ InitV4 \/ InitV5
 
 --------------------------------------------------------------------------
 (* family P: the widened product of shapes (C05) *)
